@@ -142,6 +142,22 @@ Theorem table_order_independent : forall (K V : Type) (keq : K -> K -> bool) (ha
 Proof. exact TableProofs.T_order_independent. Qed.
 Print Assumptions table_order_independent.
 
+(* aliasing: set(t, k, get(t, k2)) — the argument is read from the table itself.  In the model arguments
+   are values, so this equals set with a copy: the map becomes m[k := m(k2)].  (That the C code copies
+   its arguments before it can free the slot array is validated by the aliasing histories of the check.) *)
+Theorem table_set_from_get : forall (K V : Type) (keq : K -> K -> bool) (hash : K -> N),
+  (forall a b, keq a b = true <-> a = b) ->
+  forall (ops : list (op K V)) (k k2 : K) (v : V),
+  let t := T_run K V keq hash ops in
+  let m := spec_run K V keq ops [] in
+  snd (T_step K V keq hash t (TGet K V k2)) = OVal V v ->
+  a_get K V keq m k2 = Some v /\
+  t_inv K V hash (fst (T_step K V keq hash t (TSet K V k v))) /\
+  R K V (fst (T_step K V keq hash t (TSet K V k v))) (a_set K V keq m k v) /\
+  snd (T_step K V keq hash t (TSet K V k v)) = OUnit V.
+Proof. exact TableProofs.T_set_from_get. Qed.
+Print Assumptions table_set_from_get.
+
 (* Table_New with initial pairs (later pairs win) and Table_Assign from another Table *)
 Theorem table_new_refines : forall (K V : Type) (keq : K -> K -> bool) (hash : K -> N),
   (forall a b, keq a b = true <-> a = b) ->
